@@ -284,6 +284,46 @@ theorem independent (cfg : Cfg) (ops : List Op) (c : Nat) :
   simp only [proj, Prod.mk.injEq] at this
   exact ⟨this.2, this.1⟩
 
+/-! ## the configuration the builder produces -/
+
+/-- **The mode is the one asked for last, wherever the timeout setters stand in the chain**:
+after `builder()…cancel_running_future(b)…build()` with no later `cancel_running_future`, the
+layer runs in mode `b` — also when a (type-changing) `timeout_duration` / `timeout_fn` comes
+*after* the flag, e.g. `.cancel_running_future(false).timeout_fn(f)`.  With no
+`cancel_running_future` at all the layer cancels (the default). -/
+theorem builder_mode_last_wins (pre post : List Setter) (b : Bool)
+    (hpost : ∀ s ∈ post, s.isCancel = false) :
+    (build (pre ++ .cancel b :: post)).cancel = b ∧
+    (∀ chain : List Setter, (∀ s ∈ chain, s.isCancel = false) → (build chain).cancel = true) := by
+  constructor
+  · rw [build_append_cons, foldl_cancel_keep _ _ hpost]; rfl
+  · intro chain h
+    exact foldl_cancel_keep chain defaultCfg h
+
+/-- **The timeout source is the one given last, wherever the flag stands**: a fixed timeout
+`ms` after `timeout_duration(ms)`, the per-request source (default `d`) after `timeout_fn`, if
+only `cancel_running_future` calls follow; so by `timeout_source` every call made through
+`build chain` captures exactly that timeout. -/
+theorem builder_source_last_wins (pre post : List Setter) (ms : Nat)
+    (hpost : ∀ s ∈ post, s.isSource = false) :
+    ((build (pre ++ .dur ms :: post)).timeout = ms ∧ (build (pre ++ .dur ms :: post)).dyn = false) ∧
+    ((build (pre ++ .fn ms :: post)).timeout = ms ∧ (build (pre ++ .fn ms :: post)).dyn = true) := by
+  constructor
+  · rw [build_append_cons]
+    have h := foldl_source_keep post (applySetter (build pre) (.dur ms)) hpost
+    exact ⟨h.1.trans rfl, h.2.trans rfl⟩
+  · rw [build_append_cons]
+    have h := foldl_source_keep post (applySetter (build pre) (.fn ms)) hpost
+    exact ⟨h.1.trans rfl, h.2.trans rfl⟩
+
+/-- The clause "with cancellation disabled it keeps running to completion in the background"
+for a layer described by its builder chain: whenever the last `cancel_running_future` of the
+chain says `false` — before or after the timeout setters — no inner call is ever dropped. -/
+theorem nocancel_chain_never_drops (pre post : List Setter) (hpost : ∀ s ∈ post, s.isCancel = false)
+    (ops : List Op) (c k : Nat) :
+    Ev.innerDrop c k ∉ (run (build (pre ++ .cancel false :: post)) ops).log :=
+  (nocancel_runs_to_completion _ (builder_mode_last_wins pre post false hpost).1 ops).1 c k
+
 /-! ## non-vacuity: concrete histories -/
 
 /-- cancel mode, fixed timeout 10, created at 0 but first polled at 7: deadline 17, not 10;
@@ -328,6 +368,18 @@ example :
       = some (.waiting, 3, 7, 13) ∧
     newEvents cfg (run cfg ops) (.poll 1) = [] ∧
     newEvents cfg (run cfg (ops ++ [.adv 1])) (.poll 1) = [.innerDone 1 0 .ok, .result 1 (.ok 0)] := by
+  decide
+
+/-- builder chains: the flag before the per-request source (`c0,f20`), after it (`f20,c0`), a
+source overridden by a later one, the empty chain; and a non-cancelling per-request layer built
+flag-first times out at its deadline without dropping the inner call, which completes at 7. -/
+example :
+    build [.cancel false, .fn 20] = { timeout := 20, cancel := false, dyn := true } ∧
+    build [.fn 20, .cancel false] = { timeout := 20, cancel := false, dyn := true } ∧
+    build [.cancel false, .fn 20, .cancel true, .dur 3] = { timeout := 3, cancel := true, dyn := false } ∧
+    build [] = { timeout := 5000, cancel := true, dyn := false } ∧
+    (run (build [.cancel false, .fn 20]) [.arrive 1 (some 5) ⟨7, .ok⟩, .poll 1, .adv 5, .poll 1, .adv 2]).log
+      = [.innerCall 1 0, .result 1 .timeout, .innerDone 1 0 .ok] := by
   decide
 
 end TR.Props.C06
